@@ -259,3 +259,15 @@ check("C14", "internal/zzverif/codec",
       note=CODEC_NOTE + " The allocation constant (4096 bytes per input byte + 1 MiB) is far above the largest element struct; a decoder that allocates from a length prefix before reading exceeds it by orders of magnitude.",
       shards=(8, 16), floors={"any": {"decodes_watched": 50000, "frames_watched": 10000, "frames_accepted": 1000}}, mem_gb=6,
       assumptions=[STANDIN_VRF])
+
+check("C17", "internal/zzverif/c17",
+      rule="case = one generated full state (all 16 components by reflection inside the encoder's own validation domain, tiny parameters and every 40th case full; 0..8 services with ids around byte-boundary values, 0..6 storage entries with key lengths 0..40 incl. keys that extend other keys, 0..4 preimages keyed by their hash, lookup entries with a matching preimage, with another length for the same hash, and without any preimage) exported with StateEncoder; "
+           "the service part of the export is compared with a model of GP D.1/D.2 key construction written in the harness; then for 4 orders of the key-values (as exported, reversed, two random permutations) StateKeyValsToState must succeed and raw ++ StateEncoder(parsed) must be the same key->value set with no duplicate key and the same root (repository merklization and the independent trie model); the parsed components must equal the original values. "
+           "node stratum: FuzzServiceStub.SetState(header, shuffled key-values) followed by GetState(header hash) must return the same set and report the trie model's root. distinct_nontrivial = distinct roots of states with at least one service",
+      technique="round-trip monitor over generated states and permutations (key->value set equality, duplicate detection, root equality against an independent trie) + reference model of the state-key construction + SetState/GetState at the node boundary",
+      level_text="Identity oracle on generated states: export, import in several orders, re-export with the raw entries; held = same key-value set and root on everything explored.",
+      note="How the importer attributes entries (preimage / lookup / raw) is observed and reported, not judged: the statement only requires that nothing is lost or duplicated. The value under C(255,s) is not modelled (ServiceInfo codec belongs to C11). Trusts reftrie (C15's model).",
+      shards=(8, 16), env={"JAM_FUZZ": "1"},
+      floors={"any": {"round_trips": 8000, "services": 3000, "storage_entries": 3000, "preimages_attributed": 1000, "lookups_attributed": 500, "lookups_without_preimage": 500, "lookups_other_length": 200,
+                      "raw_entries_after_import": 3000, "full_params": 20, "node_round_trips": 300}},
+      assumptions=[STANDIN_VRF])
